@@ -51,6 +51,8 @@ func (c01) Run(ctx *RunCtx) {
 		{No: 1, URI: "file:///sim/ws/main.journal", Path: "/sim/ws/main.journal", Journal: true, Extra: "include a.journal\n"},
 		{No: 2, URI: "file:///sim/ws/a.journal", Path: "/sim/ws/a.journal", Journal: true},
 		{No: 3, URI: "file:///sim/ws/notes.journal", Path: "/sim/ws/notes.journal", Disk: -1},
+		// a buffer without a file behind it
+		{No: 4, URI: "untitled:Untitled-1", Path: "", Disk: -1},
 	}
 	for _, d := range docs[:2] {
 		env.Disk.WriteFile(d.Path, []byte(StampText(d.No, 0, d.Extra)))
@@ -173,7 +175,7 @@ func (c01) Run(ctx *RunCtx) {
 		if !doc.Open {
 			// open (or re-open)
 			doc.LSPVer++
-			if doc.Journal || (doc.No <= 2 && c.Pct("journal-profile", 70)) {
+			if doc.Journal || (doc.No != 3 && c.Pct("journal-profile", 70)) {
 				doc.Journal = true
 				doc.Marker++
 				text := StampText(doc.No, doc.Marker, doc.Extra)
@@ -258,6 +260,9 @@ func (c01) Run(ctx *RunCtx) {
 				break
 			}
 		case 2: // didSave: the client writes its buffer first, as editors do
+			if doc.Path == "" {
+				continue
+			}
 			env.Disk.WriteFile(doc.Path, []byte(doc.Buf.String()))
 			if doc.Journal {
 				doc.Disk = doc.Marker
@@ -328,6 +333,16 @@ func (c01) Run(ctx *RunCtx) {
 			ctx.T("op%d %s d%d @%d:%d -> %s", op, method, doc.No, l, ch, trunc(canon(r.Result), 160))
 			shapes = append(shapes, method)
 			checkMarkers(doc, method, r.Result)
+			if method == "textDocument/inlineCompletion" && doc.Journal && !failed {
+				// positive form of "computed from that text": the header being typed
+				// names the stamp payee of the CURRENT version, whose postings are in
+				// the current text, so the template must be offered and must be it
+				want := fmt.Sprintf("v:d%d:v%d", doc.No, doc.Marker)
+				if !strings.Contains(string(r.Result), want) {
+					fail("no-older-version", "inline-template-not-from-current-text",
+						fmt.Sprintf("inlineCompletion on d%d (at v%d) after the header 'stamp d%d v%d' did not offer the postings of that transaction (%s), which are in the current text; answer: %s", doc.No, doc.Marker, doc.No, doc.Marker, want, trunc(string(r.Result), 200)), nil)
+				}
+			}
 			// formatting edits must fit the model buffer
 			if method == "textDocument/formatting" && len(r.Result) > 0 && string(r.Result) != "null" {
 				var edits []struct {
